@@ -1,0 +1,37 @@
+//go:build verif
+
+// Verification hook (build tag `verif`): leases can be made older, as if time had passed, in
+// memory and in the lease database, so that a conformance history can let them run out.
+
+package rangeplugin
+
+import (
+	"sync"
+	"time"
+)
+
+var verifStates sync.Map
+
+func verifSeen(p *PluginState) { verifStates.Store(p, struct{}{}) }
+
+// VerifAgeLeases makes every lease of every plugin instance that has handled a request
+// d older (whole seconds), in its table and in its database
+func VerifAgeLeases(d time.Duration) error {
+	secs := int(d / time.Second)
+	var err error
+	verifStates.Range(func(k, _ interface{}) bool {
+		p := k.(*PluginState)
+		p.Lock()
+		for _, r := range p.Recordsv4 {
+			r.expires -= secs
+		}
+		if p.leasedb != nil {
+			if _, e := p.leasedb.Exec("update leases4 set expiry = expiry - ?", secs); e != nil {
+				err = e
+			}
+		}
+		p.Unlock()
+		return true
+	})
+	return err
+}
